@@ -264,6 +264,20 @@ fn explore(ctx: &mut Ctx) {
     // non-UTF-8 bytes
     product(ctx, &gen::seqs(&[0u8, 0xff, 0xc3], if q { 5 } else { 7 }), &gen::seqs(&[0u8, 0xff, 0xc3], 3));
     ctx.exhaustive_part("haystacks over {0x00,0xff,0xc3} x needles len<=3");
+    // one byte of every UTF-8 byte class: ASCII, continuation (low / high), 2-, 3-, 4-byte lead, never-valid
+    product(ctx, &gen::seqs(&[b'a', 0x80, 0xbf, 0xc3], if q { 6 } else { 7 }), &gen::seqs(&[b'a', 0x80, 0xbf, 0xc3], 3));
+    product(ctx, &gen::seqs(&[0xa9, 0xe0, 0xf0, 0xff], if q { 5 } else { 6 }), &gen::seqs(&[0xa9, 0xe0, 0xf0, 0xff], 3));
+    ctx.exhaustive_part("haystacks over {a,0x80,0xBF,0xC3} and over {0xA9,0xE0,0xF0,0xFF} (every UTF-8 byte class) x needles len<=3");
+    // byte needles that are not char-aligned inside valid UTF-8 text: every contiguous byte window (1..=4 bytes) of the haystack
+    for h in gen::strings(&gen::TEXT4, if q { 4 } else { 5 }) {
+        let hb = h.as_bytes();
+        for w in 1..=4usize {
+            for st in 0..hb.len().saturating_sub(w - 1) {
+                eval(ctx, hb, &hb[st..st + w]);
+            }
+        }
+    }
+    ctx.exhaustive_part("UTF-8 haystacks over {a,é,漢,😀} x every byte window (1..=4 bytes, char-aligned or not) of the haystack as [u8] needle");
     // UTF-8 text, one char of each length
     let b = |v: Vec<String>| v.into_iter().map(String::into_bytes).collect::<Vec<_>>();
     product(ctx, &b(gen::strings(&gen::TEXT4, if q { 5 } else { 6 })), &b(gen::strings(&gen::TEXT4, 3)));
@@ -340,7 +354,9 @@ fn explore(ctx: &mut Ctx) {
 
 /// random case: haystack = random symbols with the needle (or a near-miss prefix of it) planted
 pub fn fold_case((h, n, extra, plant): &(Vec<u8>, Vec<u8>, Vec<u8>, bool)) -> Case {
-    let m = |x: &u8| b"abcdefgh"[(*x % 8) as usize];
+    // two symbol tables: ASCII letters, or one byte of every UTF-8 byte class (continuation, lead, never-valid bytes)
+    let table: &[u8; 8] = if extra.len() == 2 { &[b'a', 0x80, 0xbf, 0xc3, 0xe0, 0xf0, 0xff, 0xa9] } else { b"abcdefgh" };
+    let m = |x: &u8| table[(*x % 8) as usize];
     let mut hay: Vec<u8> = h.iter().map(m).collect();
     let needle: Vec<u8> = n.iter().map(m).collect();
     if *plant && !needle.is_empty() {
